@@ -31,7 +31,7 @@ PROPERTY = 'C17'
 
 PREFIXES = ['/app/a', '/app/b/c', '/', '/' + 'x' * 253]      # index 2: the root prefix (empty name); index 3: a long component
 ANS_FULL = ['200', '200-nobody', '400', '400-nobody', '403-nobody', '500', 'garbage', 'wrongtype', 'nack', 'silence', 'invalid',
-            '201', '100-nobody', '300', '399-nobody', '000']
+            '201', '100-nobody', '300', '399-nobody', '000', 'sig-empty', 'sig-bad', 'sig-missing']
 ANS_SHORT = ['200', '403-nobody', 'nack', 'silence']
 ANS_TINY = ['200', 'silence', 'nack']
 
@@ -80,11 +80,16 @@ class RegScenario:
                 # the data validator rejects answers of kind 'invalid'
                 return not bytes(name[-1]).endswith(b'INVALID') if False else self._dv_ok
             self._dv_ok = True
+            self._default_dv = self.app.data_validator        # what the library installs when the application says nothing
             self.app.data_validator = self._legacy_validator
         self.main = self.loop.create_task(self.app.main_loop())
         self.loop.drain()
 
     async def _legacy_validator(self, name, sig):
+        if getattr(self, '_use_default_dv', False):
+            # answers of the kinds sig-*: a status-200 response whose DigestSha256 signature is empty / wrong / without a value
+            # element, judged by the validator the library installs by default
+            return await self._default_dv(name, sig)
         return getattr(self, '_next_valid', True)
 
     def _on_send(self, wire):
@@ -151,6 +156,15 @@ class RegScenario:
         name = [bytes(x) for x in r['name']]
         prefix = self._cmd_prefix(r)
         self._next_valid = kind != 'invalid'
+        self._use_default_dv = kind.startswith('sig-')
+        if kind.startswith('sig-'):
+            good = bytes(enc.make_data(name, enc.MetaInfo(freshness_period=1000), control_response(200, 'OK', prefix), DigestSha256Signer()))
+            top = ts.read_single(good)
+            ch = top.children()
+            sv = [c for c in ch if c.typ == 0x17][0]
+            new = {'sig-empty': ts.tlv(0x17, b''), 'sig-bad': ts.tlv(0x17, bytes(32)), 'sig-missing': b''}[kind]
+            self.face.deliver(ts.tlv(6, b''.join(c.wire if c is not sv else new for c in ch)), label=f'ans{k}')
+            return
         if kind == 'silence':
             return
         if kind == 'nack':
@@ -404,7 +418,7 @@ def sched_cases(tier):
     """(fe, calls, answers, scripts)"""
     out = []
     for fe in ('v2', 'legacy'):
-        menu1 = [a for a in ANS_FULL if a != 'invalid' or fe == 'legacy']
+        menu1 = [a for a in ANS_FULL if (a != 'invalid' and not a.startswith('sig-')) or fe == 'legacy']
         for verb in ('register', 'unregister'):
             for a in menu1:
                 out.append((fe, [(verb, 0)], [a]))
